@@ -142,9 +142,9 @@ def gen_pack(rng, world, flavour=None, allow_iterative=True):
                 perms.reverse()
         else:
             perms = [[1, 0] + list(range(2, n))]
-        tw = rng.random() < 0.2
         for pm in perms:
-            initial.append({"t": "Rename", "perm": pm, "two_way": tw, "ignore_parent": False, "mask": _mask(rng, 0.1), "lazy": False})
+            # mixed declarations: a two-way renaming can close a cycle whose other edges are one-way
+            initial.append({"t": "Rename", "perm": pm, "two_way": rng.random() < 0.3, "ignore_parent": False, "mask": _mask(rng, 0.1), "lazy": False})
     rng.shuffle(inferral)
     exp_mask = _mask(rng, 0.35)
     drop = bool(tracked) and rng.random() < 0.35
@@ -291,6 +291,8 @@ class Sim:
         self.rng = SimRandom(R["rng"]["policy"], R["rng"]["seed"])
         self.packets = 0
         self.cur_label = None
+        self.rec_rules = []
+        self.ok_verified = set()
         self.key_stack = []
         # universes are capped by work packets; runs that use algorithms which are super-linear in
         # the universe by design (forest minimisation, exhaustive 'smallest' search over packs that
@@ -388,10 +390,63 @@ class Sim:
         elif kind == "db.link":
             if self.mirrors is not None:
                 self.mirrors.link(p[1])
+        elif kind == "db.has":
+            self.on_has(*p)
         elif kind == "db.add.pre":
             self.on_add_pre(*p)
         elif kind == "db.add":
             self.on_add_post(*p)
+
+    # -- C05 in real searches: detection is exact on the recorded rules -----------
+    def on_has(self, db, result):
+        if self.focus not in ("C05", "C17", "ALL") or isinstance(db, RuleDBForest) or self.searcher is None:
+            return
+        from ..ref import trees as T
+        from ..ref.graph import scc_partition
+
+        labels = list(db.classdb)
+        edges = set()
+        for s0, kids, two, _ver in self.rec_rules:
+            if len(kids) == 1:
+                edges.add((s0, kids[0]))
+                if two:
+                    edges.add((kids[0], s0))
+        part = scc_partition(labels, edges)
+        cls = lambda l: min(part[l])  # noqa: E731
+        rules = {}
+        marked = set()
+        for s0, kids, _two, ver in self.rec_rules:
+            if ver:
+                marked.add(cls(s0))
+            if len(kids) == 1 and cls(s0) == cls(kids[0]):
+                continue
+            rules.setdefault(cls(s0), set()).add(tuple(sorted(cls(k) for k in kids)))
+        root = cls(db.root_label)
+        pruned = T.iterative_derivable(rules, root) if self.pack.iterative else T.gfp_prune(rules)
+        want = root in pruned
+        self.ctx.ev("has?", result)
+        self.ctx.stat("has_specification_checked")
+        if result != want:
+            raise Violation(
+                "C05:has-specification-wrong-in-search",
+                f"has_specification() = {result} after {len(self.rec_rules)} recorded rules, the reference pruning of those rules says {want} "
+                f"(iterative={self.pack.iterative}, root label {db.root_label}, representative {db.equivdb[db.root_label]})",
+            )
+        ok = self.ok_verified
+        justified = set()
+        for l in labels:
+            if not db.is_verified(l):
+                continue
+            c = cls(l)
+            if c in pruned or c in marked or any(m in ok for m in part[l]):
+                justified.add(l)
+                continue
+            raise Violation(
+                "C05:verified-unsound-in-search",
+                f"after has_specification() label {l} ({db.classdb.get_class(l)}) is reported verified, but its class has no verification rule, "
+                f"does not survive the reference pruning of the {len(self.rec_rules)} recorded rules and contains no label verified earlier",
+            )
+        ok |= justified
 
     # -- C17: a packet that was handed out must be processed ------------------
     def arm_packet(self, wp):
@@ -449,6 +504,10 @@ class Sim:
         self.adds += 1
         self.clock.event()
         st = rule.strategy
+        if self.focus in ("C05", "C17", "ALL") and not isinstance(db, RuleDBForest):
+            kids = tuple(sorted(l for l, ch in zip(ends, rule.children) if not (rule.possibly_empty and WW.truth_empty(ch))))
+            two = len(kids) == 1 and not isinstance(rule, VerificationRule) and bool(rule.is_two_way())
+            self.rec_rules.append((start, kids, two, isinstance(rule, VerificationRule)))
         if self.focus == "C11":
             # what the forward rule looks like to a fixed-point analysis, independent of buckets
             try:
